@@ -34,7 +34,7 @@ def check_gene(spec, ctx):
     txs = g["transcripts"]
     genome = spec.get("genome")
     chunk = spec.get("chunk") if genome else None
-    parent = (chunk_parent(genome, chunk[0], chunk[1]) if chunk else chrom_parent(genome)) if genome else None
+    parent = (chunk_parent(genome, chunk[0], chunk[1], strand=spec.get("chunk_strand", "+"), idiom=spec.get("chunk_idiom", "api")) if chunk else chrom_parent(genome)) if genome else None
     if chunk:
         # aggregates are chromosome-level answers: a sequence chunk that contains, cuts or misses the children changes none
         allp = set()
@@ -134,7 +134,7 @@ def check_fc(spec, ctx):
     feats = c["features"]
     genome = spec.get("genome")
     chunk = spec.get("chunk") if genome else None
-    parent = (chunk_parent(genome, chunk[0], chunk[1]) if chunk else chrom_parent(genome)) if genome else None
+    parent = (chunk_parent(genome, chunk[0], chunk[1], strand=spec.get("chunk_strand", "+"), idiom=spec.get("chunk_idiom", "api")) if chunk else chrom_parent(genome)) if genome else None
     if chunk:
         ctx.label("fc_on_chunk")
     strands = {f["strand"] for f in feats}
@@ -239,6 +239,7 @@ def strat_gene(draw, tier="quick"):
         if draw(st.integers(0, 2)) == 0:
             a = draw(st.integers(0, hi))
             sp["chunk"] = [a, draw(st.integers(a + 1, len(sp["genome"])))]
+            sp.update(draw(S.chunk_flavour()))
     return sp
 
 
@@ -265,6 +266,7 @@ def strat_fc(draw, tier="quick"):
         if draw(st.integers(0, 2)) == 0:
             a = draw(st.integers(0, hi))
             sp["chunk"] = [a, draw(st.integers(a + 1, len(sp["genome"])))]
+            sp.update(draw(S.chunk_flavour()))
     return sp
 
 
